@@ -162,6 +162,9 @@ func init() {
 			case 10:
 				return seg{"<% s + \"x\" %>", ""}
 			case 11:
+				if e.Rng.Intn(2) == 0 {
+					return seg{"<%# it's the user's note, isn't it %>", ""}
+				}
 				return seg{"<%# a comment %> with %> text <% %>", ""}
 			case 12:
 				return seg{"<% if (true) { %>never shown<% } %>", ""}
@@ -185,7 +188,7 @@ func init() {
 			var src, want strings.Builder
 			for j := 0; j < k; j++ {
 				s := mk()
-				if strings.HasPrefix(s.src, "<%#") {
+				if strings.HasPrefix(s.src, "<%#") && !strings.Contains(s.src, "'") {
 					// a comment tag swallows everything up to the next %>: keep it self-contained
 					s = seg{"<%# a comment %>", ""}
 				}
